@@ -245,7 +245,9 @@ class C02(Prop):
             for k in KS:
                 if k in r1 and k in r2:
                     avail = sum(len(c.rows) for c in (cts1 if probe is None else [cts1[i] for i in probe]))
-                    if r1[k] < avail and r1[k] != r2[k]:
+                    # (presorted entries get unsorted inputs: how far a merge runs ahead on one side then depends on where the
+                    #  other side ends, so only the absolute bound below is applied to them)
+                    if r1[k] < avail and r1[k] != r2[k] and 'presorted' not in flags:
                         ok = False
                         notes.append('k=%d: %d rows pulled from 100-row sources, %d from 10000-row sources' % (k, r1[k], r2[k]))
                     if 'presorted' in flags and r2[k] > 60 * k + 100:
@@ -276,7 +278,10 @@ class C02(Prop):
         c1, r1, _g, _got, cts1 = self._measure(build, SMALL)
         c2, r2, _g2, _got2, _ = self._measure(build, BIG)
         ok, notes = True, []
-        if c1 or c2:
+        # (a stage that reads its input's header at construction - convertall, formatall ... - reads one source DATA row when a
+        #  skip() stage before it has turned that row into the header: a constant, not a scan)
+        shifted = sum(1 for nm in stages if nm == 'skip')
+        if c1 != c2 or c1 > shifted:
             ok = False
             notes.append('construction pulled data rows')
         drops = any('drop' in ents[nm]['flags'] for nm in stages)
